@@ -374,3 +374,53 @@ class SimDevice:
         self.data_packets.append((now, conn.id, d["counter"], conn.key_gen, True, inner["frame"]))
         self.events.append((now, "pkt", conn.id, "data", inner["frame"], d["counter"], conn.key_gen))
         self._respond(conn, inner["frame"], {"v3": d, "v2": inner, "raw": bytes(pkt)})
+
+
+class SimHost:
+    """A UDP discovery responder at ``ip`` listening on ``port`` (6445 or 20086).
+
+    It answers a datagram only if it is an acceptable probe (see ref.discovery.probe_acceptable), addressed to its
+    ip or to the broadcast address (the latter only if the sender enabled SO_BROADCAST).  ``replies`` is a list of
+    (delay, source_port, bytes) sent for the FIRST acceptable probe only (``answer_every`` = True: for every probe).
+    """
+
+    def __init__(self, net, ip: str, port: int = 6445, replies=None, answer_every: bool = False) -> None:
+        from .ref import discovery
+        self._disc = discovery
+        self.net = net
+        self.ip = ip
+        self.port = port
+        self.replies = list(replies or [])
+        self.answer_every = answer_every
+        self.probes_ok = 0
+        self.probes_rejected = []
+        self.answered = False
+        net.udp_hosts.append(self)
+
+    def on_datagram(self, net, transport, data, addr) -> None:
+        import socket
+        if not addr:
+            return
+        ip, port = addr[0], addr[1]
+        if port != self.port:
+            return
+        if ip == self._disc.BROADCAST:
+            if (socket.SOL_SOCKET, socket.SO_BROADCAST, 1) not in transport.sock.options:
+                self.probes_rejected.append("broadcast without SO_BROADCAST")
+                return
+        elif ip != self.ip:
+            return
+        ok, why = self._disc.probe_acceptable(data)
+        if not ok:
+            self.probes_rejected.append(why)
+            return
+        self.probes_ok += 1
+        if self.answered and not self.answer_every:
+            return
+        self.answered = True
+        for delay, sport, payload in self.replies:
+            src = (self.ip, sport if sport is not None else self.port)
+            if delay <= 0:
+                net.loop.call_soon(transport.deliver, payload, src)
+            else:
+                net.loop.call_later(delay, transport.deliver, payload, src)
